@@ -25,7 +25,7 @@ Fixpoint nest_html (o : hopts) (g : str) (ps : list phrase) (zz : str) : str :=
 Definition inl_html (o : hopts) (x : inl) : str :=
   match x with
   | IAuto c0 sc r => $"<a href=" ++ [34] ++ fill o html_autolink_target (c0 :: sc ++ 58 :: r) ++ [34] ++ $">" ++ escape_html_text o (c0 :: sc ++ 58 :: r) ++ $"</a>"
-  | ILinkT w d tl =>
+  | ILinkT w d q tl =>
     $"<a href=" ++ [34] ++ fill o html_link_target d ++ [34] ++ (match tl with [] => [] | _ => $" title=" ++ [34] ++ fill o html_link_title tl ++ [34] end) ++ $">" ++ escape_html_text o w ++ $"</a>"
   | INest ch k h ps z =>
     let tag := if Z.of_nat (S k) =? 2 then $"strong" else $"em" in
@@ -357,7 +357,7 @@ Proof.
     fold (serialize (flat_map (render o sup false) (raw_if post))). rewrite ser_raw_if.
     change (fill o GenEscapes.html_raw_text (c0 :: pre)) with (escape_html_text o (c0 :: pre)).
     set (P := escape_html_text o (c0 :: pre)). set (Q := escape_html_text o post).
-    destruct x as [w|c|w d|ch k h ps z|w d tl|u0 usc ur]; cbn [inl_tok inl_html flat_map render]; unfold image_of, tlink_of, auto_of, wrap; cbn [flat_map render ser_item app l_target l_title title_attr to_plain ser_attrs fst snd].
+    destruct x as [w|c|w d|ch k h ps z|w d q tl|u0 usc ur]; cbn [inl_tok inl_html flat_map render]; unfold image_of, tlink_of, auto_of, wrap; cbn [flat_map render ser_item app l_target l_title title_attr to_plain ser_attrs fst snd].
     - change (fill o GenEscapes.html_raw_text w) with (escape_html_text o w). set (W := escape_html_text o w). cbn [app]. rewrite ?app_nil_r, <- ?app_assoc. reflexivity.
     - change (fill o GenEscapes.html_raw_text [c]) with (escape_html_text o [c]). set (W := escape_html_text o [c]). rewrite ?app_nil_r, <- ?app_assoc. reflexivity.
     - set (A := fill0 html_plain_leaf w). set (D := fill o html_image_src d). cbn [app]. rewrite ?app_nil_r. repeat (rewrite <- ?app_assoc; cbn [app]). reflexivity.
